@@ -55,3 +55,12 @@ Proof.
   induction w as [|a w IH]; intros [|v V]; cbn [map map2]; auto. rewrite IH. f_equal.
   change (@oint ROps 0) with 0. rewrite omax_comm0. reflexivity.
 Qed.
+
+(* _auto_select_init, as translated (integers as Z): on the sizes fit passes in it is the model's rule *)
+Theorem src_auto_select_init_eq (hc : bool) (d n nc : nat) (ncls : Z) :
+  src_auto_select_init hc (Z.of_nat d) (Z.of_nat n) (Z.of_nat nc) ncls = auto_select_init hc d n nc ncls.
+Proof.
+  unfold src_auto_select_init, auto_select_init.
+  replace (Z.of_nat nc <? Z.min (Z.of_nat d) (Z.of_nat n))%Z with (nc <? Nat.min d n)%nat; [reflexivity|].
+  rewrite <- Nat2Z.inj_min. destruct (Nat.ltb_spec nc (Nat.min d n)); symmetry; [apply Z.ltb_lt | apply Z.ltb_ge]; lia.
+Qed.
